@@ -170,10 +170,11 @@ pub mod c09;
 pub mod c10;
 pub mod c11;
 pub mod net;
+pub mod c17;
 pub mod c18;
 
 pub fn dispatch_all(name: &str, s: &mut ReplaySrc) -> bool {
-    c04::dispatch(name, s) || c07::dispatch(name, s) || c09::dispatch(name, s) || c10::dispatch(name, s) || c11::dispatch(name, s) || c18::dispatch(name, s)
+    c04::dispatch(name, s) || c07::dispatch(name, s) || c09::dispatch(name, s) || c10::dispatch(name, s) || c11::dispatch(name, s) || c17::dispatch(name, s) || c18::dispatch(name, s)
 }
 pub fn all_names() -> Vec<&'static str> {
     let mut v = Vec::new();
@@ -182,6 +183,7 @@ pub fn all_names() -> Vec<&'static str> {
     v.extend(c09::names());
     v.extend(c10::names());
     v.extend(c11::names());
+    v.extend(c17::names());
     v.extend(c18::names());
     v
 }
